@@ -478,3 +478,65 @@ def IsTextElem(n: XNode, tag: str, text: str) -> bool:
     """An element without attributes holding exactly one text node."""
     return (n.nodeType == 1 and n.tagName == tag and len(keys(n.attrs)) == 0 and len(n.kids) == 1
             and n.kids[0].nodeType == 3 and n.kids[0].data == text)
+
+
+# ---------------------------------------------------------------- osm control (C04)
+
+declare_class("Tag", "pyxform.question.Tag")
+declare_class("OsmUploadQuestion", "pyxform.question.OsmUploadQuestion")
+TagRef = Opaque("TagRef")
+TagK = Obj("Tag", name=str, type=str, bind=Opt[Dict[str, BindVal]], flat=Opt[bool], trigger=Opt[str],
+           default=Opt[str], label=Opt[LabelVal], hint=Opt[LabelVal], guidance_hint=Opt[LabelVal],
+           media=Opt[Dict[str, LabelVal]])
+OsmK = Obj("OsmUploadQuestion", name=str, type=str, bind=Opt[Dict[str, BindVal]], flat=Opt[bool], trigger=Opt[str],
+           default=Opt[str], label=Opt[LabelVal], hint=Opt[LabelVal], guidance_hint=Opt[LabelVal],
+           media=Opt[Dict[str, LabelVal]], instance=Opt[StrMap], action=Opt[StrMap], control=Opt[StrMap],
+           children=Opt[List[TagRef]])
+
+
+@spec
+def TagXml(t: TagRef) -> XNode:
+    """The <tag> element of one osm tag (Tag.xml, proved below on its record view)."""
+    uninterpreted()
+
+
+@contract("TagRef.xml")
+def _(self: TagRef, survey: SurveyQ) -> XNode:
+    trusted("family view of Tag.xml on an element reference (proved on its record view)")
+    ensures(result == TagXml(self))
+    may_raise(PyXFormError, when=True)
+
+
+@contract("Tag.xml")
+def _(self: TagK, survey: SurveyQ) -> XNode:
+    properties("C04")
+    no_native("needs survey-element objects: exercised through the e2e oracles and the runtime monitor")
+    may_raise(PyXFormError, when=True)
+    # C04: an osm tag is presented as <tag key=name> holding its label element, nothing else
+    ensures(result.nodeType == 1 and result.tagName == "tag" and len(keys(result.attrs)) == 1
+            and result.attrs["key"] == self.name)
+    ensures(len(result.kids) == 1 and result.kids[0] == LabelNode(self, survey))
+
+
+@contract("OsmUploadQuestion.build_xml")
+def _(self: OsmK, survey: SurveyQ) -> XNode:
+    properties("C04")
+    no_native("needs survey-element objects: exercised through the e2e oracles and the runtime monitor")
+    may_raise(PyXFormError, when=True)
+    Cd = some(self.control)
+    T = some(self.children)
+    nb = len(LabelHintNodes(self, survey))
+    nt = ite(bool(self.children), len(T), 0)
+    requires(self.control is not None and "tag" in Cd)
+    # C04: the osm control is the common skeleton followed by one <tag> per row of its osm list, in sheet order
+    ensures(result.nodeType == 1 and result.tagName == Cd["tag"])
+    ensures("ref" in result.attrs and implies("ref" not in Cd, result.attrs["ref"] == XPathOf(self)))
+    ensures(len(result.kids) == nb + nt and forall(0, nb, lambda j: result.kids[j] == LabelHintNodes(self, survey)[j]))
+    ensures(implies(bool(self.children), forall(0, len(T), lambda k: result.kids[nb + k] == TagXml(T[k]))))
+
+    @loop(0, index="i")
+    def _():
+        invariant(result.nodeType == 1 and result.tagName == Cd["tag"])
+        invariant("ref" in result.attrs and implies("ref" not in Cd, result.attrs["ref"] == XPathOf(self)))
+        invariant(len(result.kids) == nb + i and forall(0, nb, lambda j: result.kids[j] == LabelHintNodes(self, survey)[j]))
+        invariant(forall(0, i, lambda k: result.kids[nb + k] == TagXml(T[k])))
